@@ -5,7 +5,7 @@ import HapVerif.Model.Http
 Independent of the parser: `write` lays a message out as bytes - status line, header lines, the framing header
 (`Content-Length: n`, `Transfer-Encoding: chunked`, or none for a message without body), the blank line, then the
 body as such or as a sequence of chunks closed by the zero chunk.  `Good` lists what the writer promises (no stray
-separators, ASCII head, header names in canonical form, numbers that say what they should).  `WMsg.msg` is what the
+separators, ASCII head, numbers that say what they should; header names and values in any spelling).  `WMsg.msg` is what the
 application must be handed.  C07's correctness theorems say that the parser, fed any segmentation of
 `writeAll ms`, hands over exactly `ms.map WMsg.msg` and consumes exactly the bytes written. -/
 
@@ -35,7 +35,12 @@ structure WMsg where
   body : Bytes
   deriving Repr
 
-def headerLine (h : Bytes × Bytes) : Bytes := h.1 ++ 58 :: 32 :: h.2
+/-- a header line as written: name, colon, then the value exactly as given (any padding is part of it) -/
+def headerLine (h : Bytes × Bytes) : Bytes := h.1 ++ 58 :: h.2
+
+/-- what the application sees of a header: name in `Title-Case`, white space around name and value removed
+    (field names are case-insensitive and optional white space is not part of a value: RFC 7230 §3.2) -/
+def normHeader (h : Bytes × Bytes) : Bytes × Bytes := (title (strip h.1), strip h.2)
 
 def writeHeaders : List (Bytes × Bytes) → Bytes
   | [] => []
@@ -43,15 +48,17 @@ def writeHeaders : List (Bytes × Bytes) → Bytes
 
 def statusLine (m : WMsg) : Bytes := m.version ++ 32 :: (m.codeText ++ 32 :: m.reason)
 
+/-- the framing header as the application sees it -/
 def Framing.header : Framing → Option (Bytes × Bytes)
   | .none => Option.none
   | .length lt => some (strCL, lt)
   | .chunked _ => some (strTE, strChunked)
 
+/-- ... and as written: `Name: value` -/
 def Framing.lines (f : Framing) : Bytes :=
   match f.header with
   | Option.none => []
-  | some h => headerLine h ++ crlf
+  | some h => headerLine (h.1, 32 :: h.2) ++ crlf
 
 def writeChunks : List (Bytes × Bytes) → Bytes
   | [] => 48 :: (crlf ++ crlf)                                  -- `0 CRLF CRLF`
@@ -69,15 +76,13 @@ def WMsg.wireBody (m : WMsg) : Bytes :=
 def write (m : WMsg) : Bytes :=
   statusLine m ++ crlf ++ (writeHeaders m.headers ++ (m.framing.lines ++ (crlf ++ m.wireBody)))
 
-/-- what makes an (ordinary) header acceptable as written: no colon in the name, ASCII, name and value in the
-    form the parser normalises to (`Title-Case` name, no surrounding white space), not a framing header -/
+/-- what makes an (ordinary) header acceptable as written: no colon in the name, ASCII, no line break inside, and
+    not a framing header under any spelling -/
 structure GoodHeader (h : Bytes × Bytes) : Prop where
   nocolon : (58 : UInt8) ∉ h.1
-  ascii : (h.1 ++ 32 :: h.2).all (· < 128) = true
-  name : title (strip h.1) = h.1
-  value : strip (32 :: h.2) = h.2
-  notTE : h.1 ≠ strTE
-  notCL : h.1 ≠ strCL
+  ascii : (h.1 ++ h.2).all (· < 128) = true
+  notTE : (normHeader h).1 ≠ strTE
+  notCL : (normHeader h).1 ≠ strCL
   nocrlf : noCRLF (headerLine h) = true
 
 /-- the framing says what the body is -/
@@ -97,8 +102,8 @@ structure Good (m : WMsg) (code : Nat) : Prop where
 
 /-- executable form of `Good` (sound: `goodB_sound`), used by the driver to certify the harness's messages -/
 def goodHeaderB (h : Bytes × Bytes) : Bool :=
-  !h.1.contains 58 && (h.1 ++ 32 :: h.2).all (· < 128) && title (strip h.1) == h.1 && strip (32 :: h.2) == h.2 &&
-    h.1 != strTE && h.1 != strCL && noCRLF (headerLine h)
+  !h.1.contains 58 && (h.1 ++ h.2).all (· < 128) && (normHeader h).1 != strTE && (normHeader h).1 != strCL &&
+    noCRLF (headerLine h)
 
 def Framing.goodB : Framing → Bytes → Bool
   | .none, body => body.isEmpty
@@ -109,8 +114,8 @@ def goodB (m : WMsg) (code : Nat) : Bool :=
   !m.version.contains 32 && !m.codeText.contains 32 && (m.version ++ m.reason).all (· < 128) &&
     parseDec m.codeText == some code && noCRLF (statusLine m) && m.headers.all goodHeaderB && m.framing.goodB m.body
 
-/-- the headers the application sees: the written ones, then the framing header -/
-def WMsg.parsedHeaders (m : WMsg) : List (Bytes × Bytes) := m.headers ++ m.framing.header.toList
+/-- the headers the application sees: the written ones (normalised), then the framing header -/
+def WMsg.parsedHeaders (m : WMsg) : List (Bytes × Bytes) := m.headers.map normHeader ++ m.framing.header.toList
 
 /-- what the application is handed for a written message -/
 def WMsg.msg (m : WMsg) (code : Nat) : Msg :=
